@@ -276,6 +276,7 @@ class LoopRec:
     target: Optional[T] = None
     term: Optional[T] = None     # the comprehension term (comp loops)
     iter_path: Optional[T] = None   # syntactic path of the iterated expression (for loops)
+    carried: Dict[str, T] = field(default_factory=dict)   # loop-carried variables: name -> widened term after the loop
 
 
 @dataclass
@@ -296,7 +297,7 @@ class Record:
         out = rets[-1].value
         for r in reversed(rets[:-1]):
             cond = pc_to_term(r.pc)
-            out = r.value if cond is None else T("ite", (cond, r.value, out))
+            out = r.value if cond is None else (out if r.value == out else merge_terms(cond, r.value, out))
         return out
 
 
@@ -412,21 +413,72 @@ class Interp:
         return next(self._ids)
 
     def is_simple(self, fnode) -> bool:
-        """Loop-free, try-free, non-generator: may be inlined."""
+        """May the function be inlined at a call site?  No generators, no try, no global/nonlocal, and every `return`
+        outside of loops (a loop is interpreted once with widened variables, so a value returned from inside it
+        would carry loop-internal conditions)."""
         k = id(fnode)
         if k not in self._simple_cache:
             ok = True
             body = fnode.body if isinstance(fnode.body, list) else [fnode.body]
-            for st in body:
-                for n in ast.walk(st):
-                    if isinstance(n, (ast.For, ast.While, ast.Try, ast.With, ast.Yield, ast.YieldFrom,
-                                      ast.AsyncFor, ast.AsyncWith, ast.Await, ast.Global, ast.Nonlocal)):
+
+            def scan(stmts, in_loop):
+                nonlocal ok
+                for st in stmts:
+                    if not ok:
+                        return
+                    if isinstance(st, (ast.Try, ast.AsyncFor, ast.AsyncWith, ast.Global, ast.Nonlocal)):
                         ok = False
-                        break
-                if not ok:
-                    break
+                        return
+                    for n in ast.walk(st) if not isinstance(st, (ast.For, ast.While, ast.If, ast.With)) else []:
+                        if isinstance(n, (ast.Yield, ast.YieldFrom, ast.Await)):
+                            ok = False
+                            return
+                    if isinstance(st, ast.Return) and in_loop:
+                        ok = False
+                        return
+                    if isinstance(st, (ast.For, ast.While)):
+                        for n in ast.walk(st.iter if isinstance(st, ast.For) else st.test):
+                            if isinstance(n, (ast.Yield, ast.YieldFrom, ast.Await)):
+                                ok = False
+                                return
+                        scan(st.body, in_loop or not (isinstance(st, ast.For) and unrollable(st)))
+                        scan(st.orelse, in_loop)
+                    elif isinstance(st, ast.If):
+                        for n in ast.walk(st.test):
+                            if isinstance(n, (ast.Yield, ast.YieldFrom, ast.Await)):
+                                ok = False
+                                return
+                        scan(st.body, in_loop)
+                        scan(st.orelse, in_loop)
+                    elif isinstance(st, ast.With):
+                        scan(st.body, in_loop)
+                    elif isinstance(st, (ast.FunctionDef, ast.ClassDef)):
+                        continue
+            scan(body, False)
             self._simple_cache[k] = ok
         return self._simple_cache[k]
+
+
+def _literal_seq(node) -> bool:
+    if isinstance(node, ast.Constant):
+        return True
+    if isinstance(node, (ast.Tuple, ast.List)):
+        return all(_literal_seq(e) for e in node.elts)
+    return False
+
+
+def unrollable(node: ast.For) -> bool:
+    """`for x in (<literal>, <literal>, ...)` with a body that has no break / continue / return / yield / nested loop:
+    such a loop is straight-line code repeated for each literal item."""
+    if not isinstance(node.iter, (ast.Tuple, ast.List)) or not node.iter.elts or len(node.iter.elts) > 64 \
+            or not all(_literal_seq(e) for e in node.iter.elts) or node.orelse:
+        return False
+    for st in node.body:
+        for n in ast.walk(st):
+            if isinstance(n, (ast.Break, ast.Continue, ast.Return, ast.Yield, ast.YieldFrom, ast.For, ast.While, ast.Try,
+                              ast.With, ast.FunctionDef, ast.Lambda)):
+                return False
+    return True
 
 
 class _Terminated(Exception):
@@ -450,6 +502,7 @@ class _Frame:
         self.base_pc = base_pc
         self.is_generator = False
         self.local_returns: List[Tuple[PC, T]] = []
+        self.exit_states: List[Tuple[PC, dict]] = []
         self._seq = rec  # shared counter lives on record
         if not hasattr(rec, "_counter"):
             rec._counter = itertools.count(1)
@@ -553,6 +606,7 @@ class _Frame:
         if self.depth == 0:
             self.rec.returns.append(Ret("return", v, st.pc, self.loops, self.seq(), self.qualname, s.lineno))
         self.local_returns.append((st.pc, v))
+        self.exit_states.append((st.pc, dict(st.env)))
         if self.depth == 0:
             self._loop_exit("return", st, s)
         return None
@@ -733,6 +787,7 @@ class _Frame:
             elif n in body_st.env:
                 vals.append(body_st.env[n])
             after.env[n] = T("widen", (n, lid, tuple(_dedupe(vals))))
+            lr.carried[n] = after.env[n]
         after.heap = {}
         after.pc = st.pc
         if orelse:
@@ -740,6 +795,15 @@ class _Frame:
         return after
 
     def s_For(self, s, st):
+        if unrollable(s):
+            items = self.eval(s.iter, st)
+            if items.op in ("tuple", "list") and not any(i.op == "star" for i in items.a[0]):
+                for item in items.a[0]:
+                    self.bind(s.target, item, st, s, record=False)
+                    st = self.exec_block(s.body, st)
+                    if st is None:
+                        return None
+                return st
         it = self.eval(s.iter, st)
         self._pending_iter_path = self.path_of(s.iter, st)
         return self._run_loop("for", s, st, it, s.body, s.orelse, target=s.target)
@@ -1210,8 +1274,43 @@ class _Frame:
     def e_YieldFrom(self, n, st):
         self.is_generator = True
         v = self.eval(n.value, st)
+        if self._expand_generator(v, st):
+            return T("unknown", ("sent",))
         self.rec.returns.append(Ret("yield_from", v, st.pc, self.loops, self.seq(), self.qualname, n.lineno))
         return T("unknown", ("sent",))
+
+    def _expand_generator(self, v: T, st: State) -> bool:
+        """`yield from helper(args)` where helper is a generator function of the package: its yields, effects and loops
+        are those of this generator, in place."""
+        if v.op != "call" or self.depth >= self.I.inline_depth:
+            return False
+        f, args, kwargs = v.a
+        target = None
+        if f.op == "func":
+            found = self.repo.lookup(f.a[0])
+            if found and found[0] == "func":
+                target = (found[1], found[2], None, None, f.a[0])
+        elif f.op == "attr" and f.a[0].op == "param" and f.a[0].a[0] in ("self", "cls") and self.self_cls is not None \
+                and f.a[1] in self.self_cls.methods:
+            target = (self.self_cls.module, self.self_cls.methods[f.a[1]], self.self_cls, f.a[0],
+                      f"{self.self_cls.qualname}.{f.a[1]}")
+        if target is None:
+            return False
+        mod, fnode, cls, recv, qn = target
+        if id(fnode) in self.stack or not any(isinstance(x, (ast.Yield, ast.YieldFrom)) for x in ast.walk(fnode)):
+            return False
+        if any(a.op == "star" for a in args) or any(k == "**" for k, _ in kwargs):
+            return False
+        fr = _Frame(self.I, mod, fnode, cls, self.rec, qn, self.depth + 1, self.stack + (id(fnode),),
+                    base_pc=st.pc, base_loops=self.loops, base_trys=self.trys)
+        pos = list(args)
+        is_static = any(ast.unparse(d) == "staticmethod" for d in fnode.decorator_list)
+        if cls is not None and not is_static:
+            pos.insert(0, recv)
+        cs = fr.bind_params({}, symbolic_missing=False, positional=tuple(pos), kwargs=kwargs)
+        cs.heap = st.heap
+        fr.exec_block(fnode.body, cs)
+        return True
 
     def _comp(self, kind, n, elt_nodes, st):
         cid = self.I.fresh()
@@ -1268,7 +1367,13 @@ class _Frame:
         cr = CallRec(func, args_t, kwargs_t, st.pc, self.loops, self.trys, self.seq(), self.qualname, n.lineno,
                      n.col_offset)
         self.rec.calls.append(cr)
-        res = self.call(func, args_t, kwargs_t, st, n)
+        saved_nodes = getattr(self, "_call_arg_nodes", None)
+        self._call_arg_nodes = (list(n.args) if not any(isinstance(a, ast.Starred) for a in n.args) else [],
+                                {k.arg: k.value for k in n.keywords if k.arg})
+        try:
+            res = self.call(func, args_t, kwargs_t, st, n)
+        finally:
+            self._call_arg_nodes = saved_nodes
         cr.result = res
         return res
 
@@ -1328,7 +1433,7 @@ class _Frame:
                     st.heap[pth] = T("mut", (st.heap.get(pth, pth), name, args))
                 root = node.func.value if isinstance(node, ast.Call) and isinstance(node.func, ast.Attribute) else None
                 if isinstance(root, ast.Name) and root.id in st.env and recv.op not in ("param",):
-                    st.env[root.id] = T("mut", (recv, name, args))
+                    st.env[root.id] = T("mut", (recv, name, args) + ((kwargs,) if kwargs else ()))
             if recv.op == "const" and isinstance(recv.a[0], (str, bytes)) and all(a.op == "const" for a in args) \
                     and name in ("lower", "upper", "strip", "format", "encode", "decode", "replace", "ljust", "rjust"):
                 try:
@@ -1409,10 +1514,36 @@ class _Frame:
             pos.insert(0, recv if recv is not None else param("self"))
         callee_state = fr.bind_params({}, symbolic_missing=False, positional=tuple(pos), kwargs=kwargs)
         callee_state.heap = st.heap      # share heap (stores visible to caller)
-        fr.exec_block(fnode.body, callee_state)
+        before_params = dict(callee_state.env)
+        final = fr.exec_block(fnode.body, callee_state)
         if fr.is_generator:
             return None
         rets = fr.local_returns
+        # a local container of the caller that the callee mutated in place: the caller's name must see the change
+        arg_nodes = getattr(self, "_call_arg_nodes", None)
+        if arg_nodes is not None:
+            a_ = fnode.args
+            pnames = [p_.arg for p_ in a_.posonlyargs + a_.args]
+            if cls is not None and not is_static:
+                pnames = pnames[1:]
+            exits = list(fr.exit_states)
+            if final is not None:
+                exits.append((final.pc, final.env))
+            base_len0 = len(st.pc)
+            for pname, anode in list(zip(pnames, arg_nodes[0])) + [(k, v) for k, v in arg_nodes[1].items()]:
+                if not isinstance(anode, ast.Name) or anode.id not in st.env or pname not in before_params or not exits:
+                    continue
+                b = before_params[pname]
+                if b.op not in ("dict", "list", "set", "mut", "ite", "new"):
+                    continue
+                vals = [(pc, env.get(pname, b)) for pc, env in exits]
+                if all(v is b or v == b for _, v in vals):
+                    continue
+                merged = vals[-1][1]
+                for pc, v in reversed(vals[:-1]):
+                    cond = pc_to_term(pc[base_len0:])
+                    merged = v if cond is None else (merged if v == merged else merge_terms(cond, v, merged))
+                st.env[anode.id] = merged
         if not rets:
             return NONE
         # fold: the last return is the default; earlier ones are guarded by the part of their pc beyond the caller's
@@ -1420,7 +1551,7 @@ class _Frame:
         out = rets[-1][1]
         for pc, v in reversed(rets[:-1]):
             cond = pc_to_term(pc[base_len:])
-            out = v if cond is None else (v if v == out else T("ite", (cond, v, out)))
+            out = v if cond is None else (v if v == out else merge_terms(cond, v, out))
         return out
 
     def apply_lambda(self, func: T, args: tuple, kwargs: tuple, st: State) -> Optional[T]:
@@ -1530,6 +1661,22 @@ def atoms(t: T):
 
 def contains(t: T, sub: T) -> bool:
     return any(x == sub for x in walk(t))
+
+
+def final_widen(rec: "Record", t: T) -> T:
+    """A loop-carried variable seen inside its loop only shows its initial value; return the variable's complete
+    widened term (initial value and the value at the end of the body) when it is known."""
+    if t.op == "widen" and isinstance(t.a[1], int):
+        lr = rec.loops.get(t.a[1])
+        if lr is not None and t.a[0] in lr.carried:
+            return lr.carried[t.a[0]]
+    return t
+
+
+def resolve_widens(rec: "Record", t: T) -> T:
+    m = {x: final_widen(rec, x) for x in walk(t) if x.op == "widen"}
+    m = {k: v for k, v in m.items() if k != v}
+    return subst(t, m) if m else t
 
 
 def root_of(t: T) -> T:
